@@ -268,7 +268,7 @@ func CompactJSON(input, output []byte) []byte {
 			// Skip over whitespace.
 			continue
 		}
-		if c == '-' && input[i] == '0' {
+		if c == '-' && input[i] == '0' && isNegativeZero(input, i) {
 			// Negative 0 is changed to '0', skip the '-'.
 			continue
 		}
@@ -304,6 +304,26 @@ func CompactJSON(input, output []byte) []byte {
 		}
 	}
 	return output
+}
+
+// isNegativeZero reports whether the '-' at input[index-1], which is followed
+// by a '0' at input[index], is the sign of the integer literal "-0". It is not
+// when the minus is the sign of an exponent ("1e-05") or when the literal
+// carries on after the zero ("-0.5", "-0e1"): dropping the sign there would
+// change the value of the number.
+func isNegativeZero(input []byte, index int) bool {
+	if index >= 2 && (input[index-2] == 'e' || input[index-2] == 'E') {
+		return false
+	}
+	if index+1 < len(input) {
+		switch next := input[index+1]; {
+		case next == '.' || next == 'e' || next == 'E':
+			return false
+		case next >= '0' && next <= '9':
+			return false
+		}
+	}
+	return true
 }
 
 // compactUnicodeEscape unpacks a 4 byte unicode escape starting at index.
